@@ -43,7 +43,7 @@ func init() {
 		RuleK3(r, c)
 		RuleK8(r, c)
 		RuleG1(r, p)
-		RuleTransport(r, p, aspectSet{"A2d": true})
+		RuleTransport(r, p, aspectSet{"A2d": true, "RQ": true})
 		RuleFilter(r, p, aspectSet{"F1": true})
 	}
 
@@ -68,6 +68,7 @@ func init() {
 		RuleListenSibling(r, p)
 		// a date-time field is the protocol decoding of its digits only if it is built as a civil time in the local zone
 		RuleZone(r, p, c)
+		RuleInstants(r, p)
 	}
 
 	checks["C03"] = func(r *Report, p *Program, tier string) {
@@ -87,6 +88,8 @@ func init() {
 		RuleReadBuffers(r, p)
 		RuleBCD(r, p)
 		RuleK10Only(r, p, map[string]bool{"K10a": true})
+		// a malformed field makes the call fail: nested decode errors are propagated by the codec
+		RuleK5(r, c)
 	}
 
 	checks["C04"] = func(r *Report, p *Program, tier string) {
@@ -100,6 +103,7 @@ func init() {
 		RuleAPI(r, p, declareAPI(r, []string{"A0"}, map[string]int{"A0": 32}), nil)
 		RuleLayout(r, c, aspectSet{"L2": true, "L3": true})
 		RuleK11(r, c)
+		RuleK17(r, c)
 		ruleNilMapsDecl(r, p)
 		RuleF4(r, p)
 	}
@@ -120,6 +124,7 @@ func init() {
 		RuleK9(r, c)
 		RuleF4(r, p)
 		RuleZone(r, p, c)
+		RuleInstants(r, p)
 		RuleK10c(r, c)
 	}
 
@@ -140,6 +145,10 @@ func init() {
 		RuleAPI(r, p, declareAPI(r, []string{"A0", "A2", "A4", "A5"}, map[string]int{"A2": 32, "A4": 100, "A5": 32, "A0": 0}), nil)
 		RuleFilter(r, p, aspectSet{"F1": true})
 		RuleW26(r, p)
+		// "a missing date": the zero test SetTimeProfile relies on
+		r.Only = map[string]bool{"Z6": true}
+		RuleInstants(r, p)
+		r.Only = nil
 	}
 
 	checks["C08"] = func(r *Report, p *Program, tier string) {
@@ -151,7 +160,9 @@ func init() {
 		RuleG1(r, p)
 		// the event handed from the receive loop to the dispatch goroutine is allocated per datagram: a shared one
 		// is written by one goroutine while the other reads it
-		r.Only = map[string]bool{"LS1": true, "LS2": true}
+		// ... and the shutdown order (signal the driver, await its loop, then return and close the pipe) is what keeps
+		// the close of the pipe from racing with a handler that is still sending on it
+		r.Only = map[string]bool{"LS1": true, "LS2": true, "LS5": true}
 		RuleListen(r, p)
 		r.Only = nil
 	}
@@ -209,6 +220,7 @@ func init() {
 		r.Assumptions = []string{"time.Date/ParseInLocation resolve a non-existent local time to an adjacent existing instant (documented behaviour)", "go/ssa is faithful"}
 		c := NewCodec(r, p, false)
 		RuleZone(r, p, c)
+		RuleInstants(r, p)
 	}
 
 	checks["C14"] = func(r *Report, p *Program, tier string) {
@@ -216,6 +228,7 @@ func init() {
 		r.Assumptions = []string{"encoding/json and package time parse as documented", "go/ssa is faithful"}
 		RuleJSON(r, p)
 		RuleJSONStructs(r, p)
+		RuleInstants(r, p)
 		RuleK10(r, p)
 		RuleAddr(r, p)
 	}
@@ -248,6 +261,11 @@ func init() {
 		RuleAPI(r, p, declareAPI(r, []string{"A0", "A7", "IM1"}, map[string]int{"A7": 32, "IM1": 32, "A0": 0}), nil)
 		RuleK4(r, c)
 		RuleTransport(r, p, aspectSet{"T10": true})
+		// the listener's reused receive buffer is handed to the handler synchronously by the read loop (a view of it
+		// that outlives the next read would change under the event being built)
+		r.Only = map[string]bool{"LS6": true}
+		RuleListen(r, p)
+		r.Only = nil
 	}
 
 	checks["C18"] = func(r *Report, p *Program, tier string) {
@@ -269,6 +287,7 @@ func init() {
 		RuleK14(r, c)
 		RuleK15(r, c)
 		RuleK16(r, c)
+		RuleK17(r, c)
 	}
 }
 
